@@ -187,7 +187,30 @@ def build(E, tier):
     E.global_overrides[(M, "DEFAULT_PICKLE_VERSION")] = OpaqueV(z3.Const("pickle.HIGHEST_PROTOCOL", Py))
     pickle_serde(E)
     compressed_serde(E)
+    compressed_ctor(E)
     legacy(E)
+
+
+def compressed_ctor(E):
+    """CompressedSerde.__init__ stores its four arguments in the fields serialize / deserialize read (the contracts above start from
+    an object with exactly those fields), and the defaults are zlib.compress / zlib.decompress / pickle_serde / 400."""
+    q = M + ":CompressedSerde.__init__"
+    E.case_suffix = ""
+    st = State()
+    me = st.new_obj(M + ":CompressedSerde", {})
+    a = {n: OpaqueV(z3.Const("ctor_" + n, Py), tag=n) for n in ("compress", "decompress", "serde", "min_compress_len")}
+    for o in E.run_function(q, st, [a["compress"], a["decompress"], a["serde"], a["min_compress_len"]], {}, selfv=me):
+        f = o.st.heap[me.ref]
+        ok = o.kind == "return" and f.get("_compress") is a["compress"] and f.get("_decompress") is a["decompress"] and f.get("_serde") is a["serde"] \
+            and f.get("_min_compress_len") is a["min_compress_len"]
+        E.oblige("C15/%s/each-argument-is-stored-in-the-field-of-its-own-name" % short(q), o.st, z3.BoolVal(bool(ok)), func=q)
+    import ast as _ast
+    fi = extract.func(q)
+    names = [x.arg for x in fi.node.args.args][1:]
+    d = dict(zip(names[len(names) - len(fi.node.args.defaults):], [_ast.unparse(x) for x in fi.node.args.defaults]))
+    E.oblige("C15/%s/defaults(zlib.compress,zlib.decompress,pickle_serde,400)" % short(q), st,
+             z3.BoolVal(d == {"compress": "zlib.compress", "decompress": "zlib.decompress", "serde": "pickle_serde", "min_compress_len": "400"}), func=q,
+             meta={"defaults": d})
 
 
 def pickle_serde(E):
